@@ -20,6 +20,7 @@ import (
 	"time"
 
 	"cuelabs.dev/go/oci/ociregistry"
+	ocispec "github.com/opencontainers/image-spec/specs-go/v1"
 	"verifharness/internal/evid"
 )
 
@@ -81,8 +82,12 @@ func init() {
 	}
 }
 
+// stubDesc is the descriptor a stub answers with: every field of the type is set (a descriptor is
+// relayed as a whole, whatever fields the type has today).
 func stubDesc(i int) ociregistry.Descriptor {
-	return ociregistry.Descriptor{MediaType: "stub/" + methodNames[i], Size: int64(1000 + i), Digest: ociregistry.Digest(fmt.Sprintf("sha256:%064x", i))}
+	return ociregistry.Descriptor{MediaType: "stub/" + methodNames[i], Size: int64(1000 + i), Digest: ociregistry.Digest(fmt.Sprintf("sha256:%064x", i)),
+		Data: []byte(fmt.Sprintf("{%d}", i)), Annotations: map[string]string{"stub": methodNames[i]}, URLs: []string{"https://elsewhere.example/" + methodNames[i]},
+		ArtifactType: "application/vnd.stub." + methodNames[i], Platform: &ocispec.Platform{Architecture: "riscv64", OS: "plan9", Variant: fmt.Sprint(i)}}
 }
 
 func (rec *recorder) add(m int, ctx context.Context, args ...any) {
